@@ -15,8 +15,8 @@ SEE such state afterwards.
     before it touches data.  The ``zone`` global tells the harness in which
     construct a fault fired.
 (c) sentinels: a ``sense`` macro in every cached module renders eval-context
-    sensitive expressions over constant data (join / replace / xmlattr / urlize
-    with Markup + text operands, a harness filter and a harness function that
+    sensitive expressions over constant data (join / replace / xmlattr with
+    Markup + text operands, a harness filter and a harness function that
     report eval_ctx.autoescape, a sibling macro call, new-style gettext); the
     template ``zprobe.j2`` calls the sentinels of all cached modules and is
     rendered after every fault.
@@ -34,7 +34,7 @@ def sense_macros(newstyle_gettext):
     g = "|G{{ gettext('<g> %(v)s', v=a) }}" if newstyle_gettext else ""
     return ("{% macro sense_in(a) %}<{{ a }}>{% endmacro %}"
             "{% macro sense(a, m) %}J{{ [a, m]|join(',') }}|R{{ a|replace('&', m) }}"
-            "|X{{ {'k': a}|xmlattr }}|U{{ a|urlize }}|E{{ a|ectx }}|C{{ ectxf() }}"
+            "|X{{ {'k': a}|xmlattr }}|E{{ a|ectx }}|C{{ ectxf() }}"
             "|M{{ sense_in(a) }}" + g + "{% endmacro %}")
 
 
@@ -141,21 +141,23 @@ def _expand(src, ae):
 
 
 def gen_slib(rng, is_async, i18n, env_autoescape):
-    """slib.j2: every applicable guarded macro (random order, autoescape constants
-    mostly the opposite of the environment default so a leak is visible), a module
-    level namespace + cycler, the sentinels."""
+    """slib.j2: every applicable guarded macro, a module level namespace + cycler,
+    the sentinels.  The autoescape constants follow one of three patterns (all the
+    opposite of the environment default, so a leak is visible; alternating; all
+    equal to it): few distinct sources, so the compiled code is shared by the
+    environments of a shard."""
+    pattern = rng.choice([0, 0, 0, 1, 2])
+    opposite = "false" if env_autoescape else "true"
+    same = "true" if env_autoescape else "false"
     macros = []
-    for name, params, src, needs in GUARDED:
+    for i, (name, params, src, needs) in enumerate(GUARDED):
         if needs == "async" and not is_async:
             continue
         if needs == "i18n" and not i18n:
             continue
-        opposite = "false" if env_autoescape else "true"
-        same = "true" if env_autoescape else "false"
-        ae = opposite if rng.random() < 0.7 else same
+        ae = opposite if pattern == 0 or (pattern == 1 and i % 2 == 0) else same
         macros.append("{% macro " + name + "(" + params + ") %}" + _expand(src, ae)
                       + "{% endmacro %}")
-    rng.shuffle(macros)
     head = "{% set NS = namespace(cur='-') %}{% set CY = cycler('p', 'q', 'r') %}"
     return head + "".join(macros) + sense_macros(bool(i18n and i18n["newstyle"]))
 
